@@ -21,10 +21,10 @@ Print Assumptions C09_for_each_limit_respected.
 Theorem C09_fill_loop :
   forall (P : params) (own : nat -> nat) (n : nat) (a : adapter) (t : nat) (w : world),
   winv own None w -> q_ok own (ad_q a) -> q_len (ad_q a) <= q_cap (ad_q a) ->
-  q_cap (ad_q a) - q_len (ad_q a) < n ->
+  q_cap (ad_q a) - q_len (ad_q a) < n -> up_live (ad_up a) ->
   let '(a', e, w') := fill P n a t w in
   winv own None w' /\ q_ok own (ad_q a') /\ blk (q_fub (ad_q a')) = blk (q_fub (ad_q a))
   /\ q_cap (ad_q a') = q_cap (ad_q a) /\ q_len (ad_q a') <= q_cap (ad_q a') /\ ad_try a' = ad_try a
-  /\ q_len (ad_q a) <= q_len (ad_q a').
+  /\ q_len (ad_q a) <= q_len (ad_q a') /\ up_live (ad_up a').
 Proof. exact fill_spec. Qed.
 Print Assumptions C09_fill_loop.
